@@ -5,18 +5,17 @@ statements are in `Props/C15.lean`).
 import KrillModel.Ta.Invariant
 namespace KM.Ta
 
-/-- Operator actions that can set the number back are excluded here (they are the subject of
-the counter-examples in `Props/C15.lean`): a forced manifest number must exceed the signer's
-current one, and the proxy's signer association changes only while no signer request is open and
-never to a signer whose number is behind the one the proxy already publishes. -/
+/-- The one operator action that can still set the number back is excluded here (it is the
+subject of the counter-example in `Props/C15.lean`, recorded as open finding F-C15-2): taking a
+signer into use whose manifest number is behind the one the proxy already publishes – a signer
+initialised again with the same TA key and a too low initial number.  (A forced manifest number
+that does not exceed the signer's current one and a signer update while a request is open are
+refused by the code since 109701d8 / 764cd480, so they need no exclusion any more.)  The first
+association (`addSigner`, possible once per proxy) is assumed to happen while no signer request
+is open, as in every documented set-up. -/
 def benign (s : Sys) : Op → Bool
-  | .sign id _ ovr =>
-    match ovr, aget s.signers id with
-    | some v, some t => decide (t.objects.number < v)
-    | _, _ => true
   | .addSigner _ => s.proxy.openNonce.isNone
   | .updateSigner id =>
-    s.proxy.openNonce.isNone &&
     match s.proxy.number, aget s.signers id with
     | some a, some t => decide (a ≤ t.objects.number)
     | _, _ => true
@@ -169,19 +168,24 @@ theorem numInv_step (s : Sys) (o : Op) (hi : Inv s) (h : NumInv s)
     | none => exact h
     | some t =>
       simp only
-      have hopen : s.proxy.openNonce = none := by
-        simp only [benign, Bool.and_eq_true, Option.isNone_iff_eq_none] at hb; exact hb.1
       cases hp : process s.proxy (.updateSigner t.info) with
       | error e => rw [exec_error _ _ _ hp]; exact h
       | ok evs =>
         rw [exec_ok _ _ _ hp]
+        have hopen : s.proxy.openNonce = none := by
+          simp only [process] at hp
+          split at hp
+          · cases hp
+          · rename_i hno; simpa using hno
         have hev : evs = [.signerUpdated t.info] := by
           simp only [process] at hp
           split at hp
-          · split at hp
-            · cases hp; rfl
-            · cases hp
           · cases hp
+          · split at hp
+            · split at hp
+              · cases hp; rfl
+              · cases hp
+            · cases hp
         subst hev
         simp only [applyAll, List.foldl, apply]
         refine ⟨h.respLe, ?_, ?_, h.respNonces⟩
@@ -205,13 +209,8 @@ theorem numInv_step (s : Sys) (o : Op) (hi : Inv s) (h : NumInv s)
       | ok out =>
         obtain ⟨t', r⟩ := out
         simp only
-        obtain ⟨_, _, _, _, hnonce, _, _, _, _, hobj, hnum⟩ :=
+        obtain ⟨_, _, _, _, hnonce, _, _, _, _, hobj, _, hgt⟩ :=
           processSignerRequest_ok t t' m ovr r hp
-        have hgt : t.objects.number < r.body.objects.number := by
-          rw [hnum]
-          cases ovr with
-          | none => simp
-          | some v => simpa [benign, ht] using hb
         refine ⟨?_, ?_, ?_, ?_⟩
         · intro id' t'' ht'' rb hrb
           rw [aget_aput] at ht''
@@ -331,14 +330,15 @@ theorem number_step (s : Sys) (o : Op) (hi : Inv s) (h : NumInv s)
         rw [exec_ok _ _ _ hp]
         simp only [process] at hp
         split at hp
-        · rename_i s0 hs0
-          split at hp
-          · cases hp
-            simp only [benign, ht, Proxy.number, hs0, Option.map_some, Bool.and_eq_true,
-              decide_eq_true_eq] at hb
-            simp [applyAll, apply, Proxy.number, hs0, numLe, Signer.info, hb.2]
-          · cases hp
         · cases hp
+        · split at hp
+          · rename_i s0 hs0
+            split at hp
+            · cases hp
+              simp only [benign, ht, Proxy.number, hs0, Option.map_some, decide_eq_true_eq] at hb
+              simp [applyAll, apply, Proxy.number, hs0, numLe, Signer.info, hb]
+            · cases hp
+          · cases hp
   | sign id m ovr =>
     simp only [step]
     cases aget s.signers id with
